@@ -3,7 +3,7 @@ from ..engine import site_of
 from ..facts import op_place, op_local, op_const
 from ..callgraph import callee_is
 from ..mirutil import (success_edges, result_return_sites, root_place, op_root, deep_root, place_is_field,
-                       calls_on_field, aggregates, origin, defuse, calls_in, field_writes, loops_of, iter_source)
+                       calls_on_field, aggregates, origin, defuse, calls_in, field_writes, loops_of, iter_source, sweep_stores, sweep_closures)
 from ..region import switch_edges_on_variant, dominated_by_edges
 from .. import anchors as A
 
@@ -61,7 +61,8 @@ def r2_complete_sweep(cx):
             cx.check("sweep:%s:%s" % (name, what), not li.other_exits and bool(li.exhaust_exits),
                      site_of(b, li.other_exits[0][0]) if li.other_exits else site_of(b, li.header),
                      "loop over %s in %s leaves only by exhaustion (early exits: %d)" % (what, name, len(li.other_exits)))
-    cx.floor("sweep-loops", n, 4, "loops in set_claims/remove_claims")
+        n += len(sweep_closures(prog, b))
+    cx.floor("sweep-loops", n, 2, "sweeps (loops or internal iterations) in set_claims/remove_claims/housekeep")
 
 
 def r3_announcement_wiring(cx):
@@ -119,11 +120,9 @@ def r3_announcement_wiring(cx):
         ok = bool(hcalls) and all(any(fn.cfg.dominates(h, r) for h in hcalls) for r in fn.cfg.exits)
         cx.check("ends-with-sweep:" + fn.name, ok, site_of(fn), "%s runs the expiry sweep before returning" % fn.name)
         # the peer's cache entries are expired: a store of 0 to CacheValue.timeout inside a loop
-        z = [(bi, s) for bi, si, s in fn.stmts() if s["k"] == "assign" and place_is_field(s["place"], "CacheValue", "timeout")
-             and s["rv"]["k"] == "use" and op_const(s["rv"]["op"]) == 0 and fn.cfg.in_loop(bi)]
+        z = sweep_stores(prog, fn, "CacheValue", "timeout", 0)
         cx.check("cache-expired:" + fn.name, len(z) >= 1, site_of(fn), "%s zeroes the expiry of the peer's cache entries in a sweep" % fn.name)
-        z2 = [(bi, s) for bi, si, s in fn.stmts() if s["k"] == "assign" and place_is_field(s["place"], "ClaimEntry", "timeout")
-              and s["rv"]["k"] == "use" and op_const(s["rv"]["op"]) == 0 and fn.cfg.in_loop(bi)]
+        z2 = sweep_stores(prog, fn, "ClaimEntry", "timeout", 0)
         cx.check("claims-expired:" + fn.name, len(z2) >= 1, site_of(fn), "%s zeroes the expiry of the peer's dropped claims in a sweep" % fn.name)
 
 
